@@ -14,6 +14,7 @@ package store
 // repeated / reported inconclusive independently of the outcome.
 
 import (
+	"context"
 	"encoding/json"
 	"errors"
 	"fmt"
@@ -21,6 +22,7 @@ import (
 	"go/parser"
 	"go/token"
 	"strconv"
+	"strings"
 	"sync"
 	"testing"
 	"time"
@@ -34,6 +36,8 @@ type c31Input struct {
 	IntervalMs int   `json:"interval_ms,omitempty"`
 	ReleaseMs int    `json:"release_ms"` // prim: holder releases after this (-1: gate free, -2: never); close: hold time
 	SnapOnClose bool `json:"snap_on_close,omitempty"`
+	Writes    bool   `json:"writes,omitempty"` // close: at least one applied write since the last snapshot
+	Holder    string `json:"holder,omitempty"` // close: raw (a CheckAndSet owner) | backup (a real Store.Backup into a slow client)
 }
 
 const c31Never = 1000000000
@@ -305,74 +309,195 @@ func c31RunPrim(w *vWriter, in c31Input) {
 
 // ---------------------------------------------------------------- (b) Store.Close
 
+// c31BlockingWriter is the slow client of a backup: the first Write reports that the backup is
+// streaming (it holds the snapshot gate by then) and every Write waits for release.
+type c31BlockingWriter struct {
+	started chan struct{}
+	release chan struct{}
+	once    sync.Once
+}
+
+func (b *c31BlockingWriter) Write(p []byte) (int, error) {
+	b.once.Do(func() { close(b.started) })
+	<-b.release
+	return len(p), nil
+}
+
+type c31OwnerChange struct {
+	at    time.Duration
+	owner string
+}
+
+func c31Write(s *Store, stmt string) error {
+	_, _, err := s.Execute(context.Background(), executeRequestFromStrings([]string{stmt}, false, false))
+	return err
+}
+
+func c31OpenStore(t *testing.T, snapOnClose bool) (*Store, func(), error) {
+	s, ln := mustNewStore(t)
+	s.NoSnapshotOnClose = !snapOnClose
+	if err := s.Open(); err != nil {
+		ln.Close()
+		return nil, nil, fmt.Errorf("open: %w", err)
+	}
+	done := func() { ln.Close() }
+	if err := s.Bootstrap(NewServer(s.ID(), s.Addr(), true)); err != nil {
+		s.Close(true)
+		done()
+		return nil, nil, fmt.Errorf("bootstrap: %w", err)
+	}
+	if _, err := s.WaitForLeader(20 * time.Second); err != nil {
+		s.Close(true)
+		done()
+		return nil, nil, fmt.Errorf("no leader: %w", err)
+	}
+	return s, done, nil
+}
+
 func c31RunClose(t *testing.T, w *vWriter, in c31Input, srcT, srcI int64, srcErr error) {
-	key := fmt.Sprintf("close:%d:%v", in.ReleaseMs, in.SnapOnClose)
+	if in.Holder == "" {
+		in.Holder = "raw"
+	}
+	key := fmt.Sprintf("close:%d:%v:%v:%s", in.ReleaseMs, in.SnapOnClose, in.Writes, in.Holder)
 	if srcErr != nil {
 		w.Emit(VCase{Input: in, Key: key, Coq: fmt.Sprintf("CaseClose 0%%N 0%%N %s false false 0%%N", coqN(uint64(in.ReleaseMs))),
 			OracleFail: "store.go: " + srcErr.Error(), Sig: "C31:close-call-site-not-found"})
 		return
 	}
-	s, ln := mustNewStore(t)
-	defer ln.Close()
-	s.NoSnapshotOnClose = !in.SnapOnClose
-	if err := s.Open(); err != nil {
-		w.Emit(VCase{Input: in, Key: key, Inconcl: "open: " + err.Error()})
+	s, done, err := c31OpenStore(t, in.SnapOnClose)
+	if err != nil {
+		w.Emit(VCase{Input: in, Key: key, Inconcl: err.Error()})
 		return
 	}
-	if err := s.Bootstrap(NewServer(s.ID(), s.Addr(), true)); err != nil {
-		w.Emit(VCase{Input: in, Key: key, Inconcl: "bootstrap: " + err.Error()})
+	defer done()
+	inconcl := func(msg string) {
+		w.Emit(VCase{Input: in, Key: key, Inconcl: msg})
+		s.NoSnapshotOnClose = true
 		s.Close(true)
-		return
 	}
-	if _, err := s.WaitForLeader(20 * time.Second); err != nil {
-		w.Emit(VCase{Input: in, Key: key, Inconcl: "no leader: " + err.Error()})
-		s.Close(true)
-		return
+	if in.Writes || in.Holder == "backup" {
+		if err := c31Write(s, `CREATE TABLE foo (id INTEGER NOT NULL PRIMARY KEY, name TEXT)`); err != nil {
+			inconcl("write: " + err.Error())
+			return
+		}
+		if err := c31Write(s, `INSERT INTO foo(name) VALUES("fiona")`); err != nil {
+			inconcl("write: " + err.Error())
+			return
+		}
 	}
 	hold := time.Duration(in.ReleaseMs) * time.Millisecond
+	holderName := ""
+	bw := &c31BlockingWriter{started: make(chan struct{}), release: make(chan struct{})}
+	holderDone := make(chan error, 1) // the holder's own result (backup error / panic of End)
 	if hold > 0 {
-		// wait for a startup integrity check, if any, to leave the gate
-		for i := 0; i < 2000 && s.snapshotCAS.Begin("verif-holder") != nil; i++ {
-			time.Sleep(5 * time.Millisecond)
+		switch in.Holder {
+		case "raw":
+			holderName = "verif-holder"
+			// wait for a startup integrity check, if any, to leave the gate
+			for i := 0; i < 2000 && s.snapshotCAS.Begin(holderName) != nil; i++ {
+				time.Sleep(5 * time.Millisecond)
+			}
+			if s.snapshotCAS.Owner() != holderName {
+				inconcl("could not take the snapshot gate")
+				return
+			}
+		case "backup":
+			holderName = "backup"
+			go func() {
+				defer func() {
+					if r := recover(); r != nil {
+						holderDone <- fmt.Errorf("backup panicked: %v", r)
+					}
+				}()
+				holderDone <- s.Backup(context.Background(), backupRequestBinary(true, false, false), bw)
+			}()
+			select {
+			case <-bw.started:
+			case err := <-holderDone:
+				inconcl(fmt.Sprintf("backup ended before streaming: %v", err))
+				return
+			case <-time.After(30 * time.Second):
+				close(bw.release)
+				inconcl("backup did not start streaming within 30 s")
+				return
+			}
+			if o := s.snapshotCAS.Owner(); o != holderName {
+				close(bw.release)
+				w.Emit(VCase{Input: in, Key: key, OracleFail: fmt.Sprintf("a backup is streaming the database file but the snapshot gate is owned by %q", o), Sig: "C31:backup-without-gate"})
+				<-holderDone
+				s.NoSnapshotOnClose = true
+				s.Close(true)
+				return
+			}
+		default:
+			panic("bad holder " + in.Holder)
 		}
-		if s.snapshotCAS.Owner() != "verif-holder" {
-			w.Emit(VCase{Input: in, Key: key, Inconcl: "could not take the snapshot gate"})
-			s.Close(true)
-			return
+		if in.Writes {
+			// something new since the last snapshot, so that a snapshot attempt reaches the gate
+			if err := c31Write(s, `INSERT INTO foo(name) VALUES("declan")`); err != nil {
+				if in.Holder == "backup" {
+					close(bw.release)
+				}
+				inconcl("write: " + err.Error())
+				return
+			}
 		}
 	}
 	can := c31StartCanary(10 * time.Millisecond)
 	start := time.Now()
-	var releasedAt, tookGateAt time.Duration
+	var releasedAt time.Duration
+	var changes []c31OwnerChange
 	var wg sync.WaitGroup
-	closeDone := make(chan struct{})
+	stopObs := make(chan struct{})
+	wg.Add(1)
+	go func() { // white-box observer: every change of the gate's owner
+		defer wg.Done()
+		last := "\x00"
+		for {
+			if o := s.snapshotCAS.Owner(); o != last {
+				changes = append(changes, c31OwnerChange{time.Since(start), o})
+				last = o
+			}
+			select {
+			case <-stopObs:
+				return
+			default:
+				time.Sleep(200 * time.Microsecond)
+			}
+		}
+	}()
 	if hold > 0 {
-		wg.Add(2)
-		go func() { // the in-flight operation
+		wg.Add(1)
+		go func() { // the in-flight operation finishes
 			defer wg.Done()
 			time.Sleep(time.Until(start.Add(hold)))
-			s.snapshotCAS.End()
 			releasedAt = time.Since(start)
-		}()
-		go func() { // white-box observer: when does Close own the gate
-			defer wg.Done()
-			for {
-				if s.snapshotCAS.Owner() == "close" {
-					tookGateAt = time.Since(start)
-					return
-				}
-				select {
-				case <-closeDone:
-					return
-				default:
-					time.Sleep(200 * time.Microsecond)
-				}
+			if in.Holder == "raw" {
+				func() {
+					defer func() {
+						if r := recover(); r != nil {
+							holderDone <- fmt.Errorf("End panicked: %v", r)
+						}
+					}()
+					s.snapshotCAS.End()
+					holderDone <- nil
+				}()
+			} else {
+				close(bw.release)
 			}
 		}()
 	}
-	err := s.Close(true)
+	err = s.Close(true)
 	closeTook := time.Since(start)
-	close(closeDone)
+	var holderErr error
+	if hold > 0 {
+		select {
+		case holderErr = <-holderDone:
+		case <-time.After(30 * time.Second):
+			holderErr = errors.New("the holder did not finish within 30 s of its release")
+		}
+	}
+	close(stopObs)
 	wg.Wait()
 	noise := can.Stop()
 	ok := err == nil
@@ -382,36 +507,51 @@ func c31RunClose(t *testing.T, w *vWriter, in c31Input, srcT, srcI int64, srcErr
 	}
 	if !ok {
 		// leave no store behind
+		s.NoSnapshotOnClose = true
 		s.Close(true)
 	}
 	if noise > 500*time.Millisecond {
 		w.Emit(VCase{Input: in, Key: key, Inconcl: fmt.Sprintf("scheduling noise %s", noise), Tags: []string{"close-noisy"}})
 		return
 	}
-	// latency of taking the gate after the release (upper bound: return of Close if the observer missed it)
+	// when did the holder lose the gate, when did Close get it
+	var lostAt, tookGateAt time.Duration = -1, -1
+	var trail []string
+	for _, c := range changes {
+		trail = append(trail, fmt.Sprintf("%s@%s", c.owner, c.at.Round(100*time.Microsecond)))
+		if lostAt < 0 && hold > 0 && c.owner != holderName {
+			lostAt = c.at
+		}
+		if tookGateAt < 0 && c.owner == "close" {
+			tookGateAt = c.at
+		}
+	}
 	var after time.Duration
 	if ok && hold > 0 {
-		if tookGateAt == 0 {
-			tookGateAt = closeTook
+		if tookGateAt < 0 {
+			tookGateAt = closeTook // the observer missed it: upper bound
 		}
 		after = tookGateAt - releasedAt
 	}
-	prompt := ok && after <= 100*time.Millisecond
 	promptLoose := ok && after <= time.Second // oracle threshold: 100x the 10 ms poll, 10x below the defect
 	gaveUp := uint64(0)
 	if !ok {
 		gaveUp = uint64(closeTook / time.Millisecond)
 	}
 	vc := VCase{Input: in, Key: key, Nontrivial: hold > 0 && ok,
-		Coq: fmt.Sprintf("CaseClose %s %s %s %s %s %s", coqN(uint64(srcT)), coqN(uint64(srcI)), coqN(uint64(in.ReleaseMs)), coqBool(ok), coqBool(prompt || promptLoose), coqN(gaveUp)),
-		Tags: []string{"close", fmt.Sprintf("close-hold=%d", in.ReleaseMs)}}
+		Coq: fmt.Sprintf("CaseClose %s %s %s %s %s %s", coqN(uint64(srcT)), coqN(uint64(srcI)), coqN(uint64(in.ReleaseMs)), coqBool(ok), coqBool(promptLoose), coqN(gaveUp)),
+		Tags: []string{"close", fmt.Sprintf("close-hold=%d", in.ReleaseMs), "holder-" + in.Holder, fmt.Sprintf("snap-on-close=%v", in.SnapOnClose), fmt.Sprintf("writes=%v", in.Writes)}}
+	const early = 5 * time.Millisecond
 	switch {
+	case hold > 0 && lostAt >= 0 && lostAt < releasedAt-early:
+		vc.OracleFail = fmt.Sprintf("the gate held by %q was taken away %s after Close was called, %s before the holder finished; owner trail %v", holderName, lostAt, releasedAt-lostAt, trail)
+		vc.Sig = "C31:gate-released-under-holder"
+	case hold > 0 && ok && closeTook < releasedAt-early:
+		vc.OracleFail = fmt.Sprintf("Close returned (%v) after %s while the operation holding the gate ran until %s", err, closeTook, releasedAt)
+		vc.Sig = "C31:close-did-not-wait"
 	case hold <= 9*time.Second && !ok:
 		vc.OracleFail = fmt.Sprintf("gate held for %s only, yet Close failed after %s: %v", hold, closeTook, err)
 		vc.Sig = "C31:close-failed-before-limit"
-	case hold <= 9*time.Second && hold > 0 && tookGateAt < releasedAt-5*time.Millisecond:
-		vc.OracleFail = fmt.Sprintf("Close took the gate after %s, before the holder released it at %s", tookGateAt, releasedAt)
-		vc.Sig = "C31:close-did-not-wait"
 	case hold <= 9*time.Second && !promptLoose:
 		vc.OracleFail = fmt.Sprintf("holder released the gate after %s; Close took it only %s later (Close returned after %s)", releasedAt, after, closeTook)
 		vc.Sig = "C31:close-slow-after-release"
@@ -421,6 +561,83 @@ func c31RunClose(t *testing.T, w *vWriter, in c31Input, srcT, srcI int64, srcErr
 	case hold >= 11*time.Second && (closeTook < 9*time.Second || closeTook > 11500*time.Millisecond):
 		vc.OracleFail = fmt.Sprintf("gate held for %s: Close gave up after %s, not after about ten seconds", hold, closeTook)
 		vc.Sig = "C31:close-limit"
+	case holderErr != nil:
+		vc.OracleFail = fmt.Sprintf("the operation that held the gate (%s) did not end well: %v", in.Holder, holderErr)
+		vc.Sig = "C31:holder-broken"
+	}
+	w.Emit(vc)
+}
+
+// ---------------------------------------------------------------- (c) the gate's caller discipline
+
+// c31RunGate: only the caller of a successful Begin calls End.  While another owner holds the
+// gate, real snapshot attempts (Store.Snapshot and fsmSnapshot itself) must be refused AND leave
+// the gate with its owner; afterwards the holder ends and a snapshot goes through.
+func c31RunGate(t *testing.T, w *vWriter, in c31Input) {
+	key := "gate"
+	s, done, err := c31OpenStore(t, false)
+	if err != nil {
+		w.Emit(VCase{Input: in, Key: key, Inconcl: err.Error()})
+		return
+	}
+	defer done()
+	defer func() { s.NoSnapshotOnClose = true; s.Close(true) }()
+	for _, q := range []string{`CREATE TABLE foo (id INTEGER NOT NULL PRIMARY KEY, name TEXT)`, `INSERT INTO foo(name) VALUES("fiona")`} {
+		if err := c31Write(s, q); err != nil {
+			w.Emit(VCase{Input: in, Key: key, Inconcl: "write: " + err.Error()})
+			return
+		}
+	}
+	const holder = "verif-holder"
+	for i := 0; i < 2000 && s.snapshotCAS.Begin(holder) != nil; i++ {
+		time.Sleep(5 * time.Millisecond)
+	}
+	if s.snapshotCAS.Owner() != holder {
+		w.Emit(VCase{Input: in, Key: key, Inconcl: "could not take the snapshot gate"})
+		return
+	}
+	steps := []string{fmt.Sprintf("(CBegin 0%%nat %s, Ok, %s)", coqStr(holder), coqStr(holder))}
+	fail, sig := "", ""
+	attempt := func(name string, f func() error) {
+		err := f()
+		owner := s.snapshotCAS.Owner()
+		var obs string
+		switch {
+		case err == nil:
+			obs = "Ok"
+		case errors.Is(err, rsync.ErrCASConflict) || strings.Contains(err.Error(), "CAS conflict"):
+			obs = "Conflict"
+		default:
+			return // the attempt did not get as far as the gate
+		}
+		steps = append(steps, fmt.Sprintf("(CBegin 1%%nat \"snapshot\", %s, %s)", obs, coqStr(owner)))
+		if fail == "" && (obs != "Conflict" || owner != holder) {
+			fail = fmt.Sprintf("%s while %q holds the snapshot gate: result %v, gate owner afterwards %q (an End without a matching successful Begin)", name, holder, err, owner)
+			sig = "C31:refused-attempt-released-gate"
+		}
+		if obs == "Ok" && owner == "snapshot" {
+			s.snapshotCAS.End()
+		}
+	}
+	attempt("Store.Snapshot", func() error { return s.Snapshot(0) })
+	attempt("fsmSnapshot", func() error {
+		fs, err := s.fsmSnapshot()
+		if err == nil && fs != nil {
+			fs.Release()
+		}
+		return err
+	})
+	s.snapshotCAS.End()
+	steps = append(steps, fmt.Sprintf("(CEnd 0%%nat, Ok, %s)", coqStr(s.snapshotCAS.Owner())))
+	if err := s.Snapshot(0); err != nil && fail == "" && !errors.Is(err, ErrNothingNewToSnapshot) {
+		fail, sig = "snapshot after the holder left: "+err.Error(), "C31:gate-stuck"
+	}
+	if o := s.snapshotCAS.Owner(); o != "" && fail == "" {
+		fail, sig = fmt.Sprintf("gate owner %q after everybody left", o), "C31:gate-stuck"
+	}
+	vc := VCase{Input: in, Key: key, Coq: "CaseGate " + coqList(steps), Nontrivial: len(steps) >= 3, Tags: []string{"gate"}}
+	if fail != "" {
+		vc.OracleFail, vc.Sig = fail, sig
 	}
 	w.Emit(vc)
 }
@@ -434,27 +651,56 @@ func TestVerif_C31(t *testing.T) {
 		if err := json.Unmarshal(raw, &in); err != nil {
 			t.Fatal(err)
 		}
-		if in.Kind == "close" {
+		switch in.Kind {
+		case "close":
 			c31RunClose(t, w, in, srcT, srcI, srcErr)
-		} else {
+		case "gate":
+			c31RunGate(t, w, in)
+		default:
 			c31RunPrim(w, in)
 		}
 		return
 	}
 	var wg sync.WaitGroup
-	// (b) every Close scenario on its own store, concurrently with the grid
-	holds := []int{0, 5, 50, 500, 2000, 11000}
-	if vTier() == "thorough" {
-		holds = append(holds, 1, 17, 150, 5000, 9000, 12000)
+	// (b) every Close scenario on its own store, concurrently with the grid:
+	// {snapshot-on-close on/off} x {nothing / a write applied since the last snapshot} x
+	// {raw gate owner, real backup into a slow client} x hold times
+	var closes []c31Input
+	add := func(snap, writes bool, holder string, holds ...int) {
+		for _, h := range holds {
+			closes = append(closes, c31Input{Kind: "close", ReleaseMs: h, SnapOnClose: snap, Writes: writes, Holder: holder})
+		}
 	}
-	for i, h := range holds {
-		in := c31Input{Kind: "close", ReleaseMs: h, SnapOnClose: i%3 == 2}
+	if vTier() == "thorough" {
+		for _, snap := range []bool{false, true} {
+			for _, wr := range []bool{false, true} {
+				add(snap, wr, "raw", 0, 1, 5, 17, 50, 150, 500, 2000, 5000, 9000, 11000, 12000)
+			}
+			add(snap, true, "backup", 5, 50, 300, 2000, 9000, 11000)
+		}
+	} else {
+		add(false, false, "raw", 0, 5)
+		add(true, false, "raw", 50, 11000)
+		add(false, true, "raw", 500)
+		add(true, true, "raw", 5, 50, 500, 2000, 11000)
+		add(true, true, "backup", 300, 2000, 11000)
+		add(false, true, "backup", 300)
+	}
+	closeSem := make(chan struct{}, 16)
+	for _, in := range closes {
 		wg.Add(1)
 		go func() {
 			defer wg.Done()
+			closeSem <- struct{}{}
+			defer func() { <-closeSem }()
 			c31RunClose(t, w, in, srcT, srcI, srcErr)
 		}()
 	}
+	wg.Add(1)
+	go func() {
+		defer wg.Done()
+		c31RunGate(t, w, c31Input{Kind: "gate"})
+	}()
 	// (a) grid: timeouts and releases at half-interval offsets (never on a poll instant)
 	intervals := []int{150, 250}
 	reps := 1
